@@ -75,7 +75,7 @@ pub fn run(cx: &mut Ctx, o: &Opts) -> String {
                 let origin = c.to_string();
                 // the kernel sees a bounded number per file; the predicate sees all of them
                 let saved = cx.emit_coq;
-                cx.emit_coq = saved && (i < 12 || o.thorough && i < 60);
+                cx.emit_coq = saved && (i < 5 || o.thorough && i < 60);
                 cx.cmd_case(c, true, &origin, true);
                 cx.emit_coq = saved;
             }
